@@ -71,9 +71,9 @@ CLAIMED = {
   note="Partial: the rectangle code paths of src/decode/read_write.rs (skip arithmetic, block ranges, width offsets, the 3072-byte conversion buffer) are not modelled line by line; they are compared against the specification-level model on generated inputs. The native-layout full decode is the reference image (verified by C03/C04 for the modelled formats, taken as is for BC6H/ASTC).",
   tech="Coq proof (list lemmas, induction over rows) + differential execution against the specification-level model"),
  "C12": dict(
-  text="Coq theorems over whole input domains: every 8-bit value is stored exactly by 8/10/16-bit UNORM, half, f32 and shared-exponent fields (decoding at 8 bits returns it) and widened exactly into 16-bit fields; every 16-bit value is stored exactly by 16-bit UNORM and f32 fields; into narrower UNORM/SNORM/XR fields every 8-bit and every 16-bit value receives the nearest code (exactly nearest except 45772 into 10 bits and 43733 into SNORM8, where f32 double rounding gives an error of 0.50003 of a step - stated with that slack and invisible at 16-bit comparison). The encoder model (universal path: input to four f32 channels, from_f32 quantisers, bit packing of 35 formats) is compared byte for byte with dds::encode, which also establishes that the copy / colour-convert / universal variants agree.",
+  text="Coq theorems over whole input domains: every 8-bit value is stored exactly by 8/10/16-bit UNORM, half, f32 and shared-exponent fields (decoding at 8 bits returns it) and widened exactly into 16-bit fields; every 16-bit value is stored exactly by 16-bit UNORM and f32 fields; into narrower UNORM/SNORM/XR fields every 8-bit and every 16-bit value receives the nearest code (exactly nearest except 45772 into 10 bits and 43733 into SNORM8, where f32 double rounding gives an error of 0.50003 of a step - stated with that slack and invisible at 16-bit comparison). The encoder model (universal path: input to four f32 channels, from_f32 quantisers, bit packing of the 35 pixel formats, macro-pixel averaging of the 7 sub-sampled formats, planes and 2x2 chroma means of the 3 bi-planar formats) is compared byte for byte with dds::encode, which also establishes that the copy / colour-convert / universal variants agree.",
   ref="DESIGN.md §6 C12",
-  note="Partial: f32 inputs are compared with the model on boundary/special/random values but have no rounding theorem; dithering is excluded by the property; the sub-sampled and bi-planar encoders are covered by oracles only (round trip, bounds, independence of input colour format / pitch).",
+  note="Partial: f32 inputs are compared with the model on boundary/special/random values but have no rounding theorem; dithering is excluded by the property; the sub-sampled and bi-planar encoders are modelled and compared but have no bound theorem (the documented YUV bound is checked by oracle).",
   tech="Coq proof (exhaustive finite sweeps over an executable IEEE-754 model) + differential execution + round-trip/independence oracles"),
  "C01": dict(
   text="Coq theorems on models in which every unwrap, debug assertion and unchecked u64 operation of the layout code is a possible failure: for every u32 x u32 surface the inner products of the byte-length computation fit u64 and the length is the rule's value or None exactly on overflow; deriving the layout of ANY header equals 'which object is described' + 'does the total fit in u64' (so the only failures are the documented errors); when a layout is produced all its iterators and accessors succeed below 2^64; every header the parser accepts is well-formed with fields below 2^32; a full decode of a non-empty surface from a reader that is too short or fails before the end of the surface never returns Ok, and non-I/O errors leave the reader in place. The implementation is exercised by a totality oracle on generated hostile files (debug and release builds).",
